@@ -150,7 +150,9 @@ def get_component_files(suffix: Optional[str] = None) -> List[ComponentFileEntry
     component_filepaths = _search_dirs(dirs, search_glob)
 
     if hasattr(settings, "BASE_DIR") and settings.BASE_DIR:
-        project_root = str(settings.BASE_DIR)
+        # NOTE: The component dirs are resolved (symlinks and `..` removed) in `get_component_dirs()`,
+        # so the project root must be resolved too, otherwise the files are not "inside" it.
+        project_root = str(Path(settings.BASE_DIR).resolve())
     else:
         # Fallback for getting the root dir, see https://stackoverflow.com/a/16413955/9788634
         project_root = os.path.abspath(os.path.dirname(__name__))
